@@ -33,10 +33,10 @@ Fin(x) == x.s # 2
 (* ---- operation classes --------------------------------------------------------------------- *)
 ExactOps == {"view", "transpose", "t", "permute", "select", "slice", "unsqueeze", "expand", "cat", "stack", "split",
              "slice_step", "select_neg", "squeeze", "flatten", "add_tensor", "mul_t1", "div_t1",
-             "neg", "relu", "clone", "detach", "abs", "add1", "sum", "gelu", "contiguous", "lt", "copy_", "div_tensor"}
+             "neg", "relu", "clone", "detach", "abs", "add1", "sum", "gelu", "contiguous", "lt", "copy_", "div_tensor", "roundtrip"}
 RescaleOps == {"mul", "div", "to", "mul_t", "div_t", "rmul"}
 RequantOps == {"softmax", "where"}
-MoveOps == {"clone", "detach", "contiguous", "to"}
+MoveOps == {"clone", "detach", "contiguous", "to", "roundtrip"}
 
 (* ---- C06 well-formedness of a projected result ------------------------------------------------ *)
 RECURSIVE ProdS(_)
